@@ -765,6 +765,10 @@ class Interp(ExprMixin, StmtMixin):
             return h.f(self, args, kwargs, node)
         raise Unsupported("sorted without theory")
 
+    def b_id(self, args, kwargs, node):
+        """id(x): an integer that is a function of the object - NOT assumed injective over time (addresses are reused after an object dies)."""
+        return ZI(L.fn("id_of", L.V, L.I)(as_v(args[0])))
+
     def b_range(self, args, kwargs, node):
         if len(args) == 1:
             return PyRange(PyC(0), args[0])
@@ -834,6 +838,20 @@ class Interp(ExprMixin, StmtMixin):
         if not (isinstance(recv, ZV) and (base_tag(recv.tag) or "").lower().startswith("set")):
             raise Unsupported("update on %r (line %s)" % (recv, getattr(node, "lineno", "?")))
         return self._writeback(bm, ZV(L.set_union(recv.term, self.seq_of(args[0]).term), recv.tag))
+
+    def m_setdefault(self, recv, args, kwargs, bm, node):
+        """dict.setdefault(key, default): the stored value if the key is present, otherwise stores and returns the default."""
+        if isinstance(recv, PyDict):
+            recv = ZV(as_v(recv), "dict")
+        bt_ = base_tag(getattr(recv, "tag", None)) or ""
+        if not (isinstance(recv, ZV) and (bt_.startswith("Dict") or bt_ == "dict")):
+            raise Unsupported("setdefault on %r" % (recv,))
+        k = as_v(args[0])
+        dflt = args[1] if len(args) > 1 else PyC(None)
+        present = L.has(recv.term, k)
+        val = ZV(z3.If(present, L.get(recv.term, k), as_v(dflt)), self.val_tag(recv) or getattr(dflt, "tag", None))
+        self._writeback(bm, ZV(z3.If(present, recv.term, L.dict_set(recv.term, k, as_v(dflt))), recv.tag))
+        return val
 
     def m_get(self, recv, args, kwargs, bm, node):
         if isinstance(recv, PyDict):
